@@ -88,6 +88,12 @@ pub struct ServerSetup<
 )]
 pub struct ClientRegistration<CS: CipherSuite> {
     pub(crate) oprf_client: voprf::OprfClient<CS::OprfCs>,
+    #[cfg_attr(
+        feature = "serde",
+        serde(
+            deserialize_with = "crate::messages::deserialize_blinded_element_serde::<_, CS>"
+        )
+    )]
     pub(crate) blinded_element: voprf::BlindedElement<CS::OprfCs>,
 }
 
